@@ -161,13 +161,17 @@ Definition handler_flag (hd : handler) : xflag :=
 
 (* The exceptional edge: try_handle_error / unwind_stack inside this frame.  [base] is a lower
    bound of the stack height when unwind_stack truncates.  With no frame-local handler the
-   frame is left (an outer frame's handler, or the run ends). *)
+   frame is left (an outer frame's handler, or the run ends).
+   Since /repo b6d2023 unwind_stack calls close_upvalues(handler.init_stack_size) before truncating:
+   the open upvalues of the discarded slots (>= handler height) are CLOSED on this edge (before that
+   fix they stayed open - former class unwind_open_upvalue - and the model kept them in [captured]). *)
 Definition exc_edge (s : fstate) (base : N) : result :=
   match handlers s with
   | [] => Next []
   | hd :: tl =>
     if hheight hd <=? base
-    then Next [mkS (catch_pc hd) (hheight hd + 1) tl (captured s) (pending s) (handler_flag hd)]
+    then Next [mkS (catch_pc hd) (hheight hd + 1) tl
+                   (filter (fun c => c <? hheight hd) (captured s)) (pending s) (handler_flag hd)]
     else Stuck RHandlerAboveStack
   end.
 
